@@ -401,8 +401,23 @@ func evaluate(s *rt.Spec, scn *rt.Scenario, prop string) (mine, other []rt.Findi
 			res.inconclusive = res2.inconclusive
 		default:
 			all = append(all, rt.Differential(res.runs[0], res2.runs[0])...)
+			// the full oracle on the modifier-mode code: a finding about
+			// invocations, inputs, results or errors that the base-mode code does
+			// not show for the same scenario means the two modes disagree (C20);
+			// anything else keeps its own property
+			baseHas := map[string]bool{}
+			for _, f := range rt.Check(res.runs[0]) {
+				baseHas[f.Prop] = true
+			}
 			for _, f := range rt.Check(res2.runs[0]) {
-				all = append(all, rt.Finding{Prop: f.Prop, Msg: "modifier-mode code: " + f.Msg})
+				prop := f.Prop
+				switch prop {
+				case "C01", "C02", "C04", "C07":
+					if !baseHas[prop] {
+						prop = "C20"
+					}
+				}
+				all = append(all, rt.Finding{Prop: prop, Msg: "modifier-mode code: " + f.Msg})
 			}
 		}
 	}
